@@ -5,7 +5,9 @@
    says every rule's outcome is defined (no Python exception, in the model's domain)
    and lists what the loop sees. *)
 From Coq Require Import List String.
-From Rbacx Require Import Value Cond Target Policy PolicySet PolicyProofs PolicySetProofs.
+From Rbacx Require Import Value Cond Target Policy PolicySet Compiler Oblig Engine
+     PolicyProofs PolicySetProofs EngineProofs
+     Cache CacheKey CacheGuard CacheGuardProofs CacheExplain CacheExplain2.
 Import ListNotations.
 Local Open Scope string_scope.
 
@@ -112,3 +114,129 @@ Example c02_example_set :
   = ERaw {| r_decision := "permit"; r_reason := "matched"; r_rule_id := Some "p";
             r_obligations := []; r_policy_id := Some (VStr "inner") |}.
 Proof. vm_compute. reflexivity. Qed.
+
+(* ------------------------------------------------------------------ *)
+(* at Guard level and through the decision cache ("with and without decision cache") *)
+(* ------------------------------------------------------------------ *)
+Local Open Scope list_scope.   (* ++ is list append below *)
+(* guard_decide = Guard._decide_async: the compiled function when there is one and it does not raise,
+   else the interpreter.  First the bridge from the evaluators above to guard_decide, then the
+   statements at every site of a history on the cached engines (vocabulary and hypotheses as in
+   props/C01.v: h = pre ++ HEval w req :: post, answer number [evals_in pre], [policy_at w pre g1 g2] =
+   the policy guard w holds at that point; hypotheses of c08_transparent_key_safe).  The Decision
+   answered is finish (the obligation gate, C07) applied to the raw decision described here. *)
+
+(* a policy set is decided by the set evaluator on whichever path *)
+Theorem c02_guard_set_is_set_evaluator : forall rel kvs env,
+  has_key "policies" (VObj kvs) = true ->
+  guard_decide unit (relh_pure rel) (VObj kvs) env tt = decide unit (relh_pure rel) (VObj kvs) env tt.
+Proof. exact guard_decide_set. Qed.
+Print Assumptions c02_guard_set_is_set_evaluator.
+
+(* a single policy: spec_result of the policy's algorithm over the events of the rules the loop saw —
+   a prefix rpre (the loop stops at a deciding rule) of [seen] = the policy's rule list (interpreter)
+   or the sub-list selected for the request (compiled function, C03).  When the policy names no
+   algorithm the compiled function's default is permit-overrides, the interpreter's deny-overrides
+   (finding F12, C17): the last disjunction *)
+Theorem c02_guard_single_is_spec : forall rel kvs env r,
+  has_key "policies" (VObj kvs) = false -> algo_field_ok (VObj kvs) ->
+  guard_decide unit (relh_pure rel) (VObj kvs) env tt = (ERaw r, tt) ->
+  (policy_rules (VObj kvs) = None /\ r = no_match_raw) \/
+  exists al rules seen rpre rpost evs,
+    policy_rules (VObj kvs) = Some rules /\ incl seen rules /\ seen = rpre ++ rpost /\
+    events_of rel rpre env evs /\ raw_of_result (spec_result al evs) = Some r /\ al <> OtherAlgo /\
+    (policy_algo None (VObj kvs) = Some al \/
+     exists s, compiled_algo (VObj kvs) = Some s /\ algo_of_string s = al).
+Proof. exact guard_decide_single. Qed.
+Print Assumptions c02_guard_single_is_spec.
+
+(* c02_set_is_spec through Guard and the cache: when the policy held at the site is a set and every
+   child evaluates normally, the answer — hit or miss — IS the gate applied to the declarative set
+   result over the children's results *)
+Theorem c02_set_is_spec_cached :
+  forall (rel : rel_query -> bool) (T : Type) (tag : value -> T) (teqb : T -> T -> bool),
+  (forall a b, teqb a b = true <-> a = b) ->
+  forall (M : cache_impl T), contract T teqb M ->
+  forall (copying : bool) (g1 g2 : gcfg) (h : list hop),
+  tag_inj T tag (policies_all g1 g2 h) ->
+  (forall e, In e (envs_all g1 g2 h) -> key_safe e = true) ->
+  forall pre w req post hit o kvs al children env crs,
+  h = pre ++ HEval w req :: post ->
+  nth_error (snd (run_cached unit (relh_pure rel) T tag canon builtin_both M copying h (init unit T M g1 g2 tt)))
+            (evals_in pre) = Some (hit, o) ->
+  policy_at w pre g1 g2 = VObj kvs ->
+  set_algo (VObj kvs) = Some al ->
+  assoc "policies" kvs = Some (VList children) ->
+  build_env (guard_strict w g1 g2) req None = Some env ->
+  child_results rel children env crs ->
+  o = GDecision (finish builtin_oblig (set_spec al crs) (get_key "context" env)).
+Proof. exact set_is_spec_cached. Qed.
+Print Assumptions c02_set_is_spec_cached.
+
+(* conversely: every Decision answered while the guard holds a set is the gate applied to set_spec over
+   the results of the children seen (a prefix: the loop stops at a deciding child) *)
+Theorem c02_set_combination_cached :
+  forall (rel : rel_query -> bool) (T : Type) (tag : value -> T) (teqb : T -> T -> bool),
+  (forall a b, teqb a b = true <-> a = b) ->
+  forall (M : cache_impl T), contract T teqb M ->
+  forall (copying : bool) (g1 g2 : gcfg) (h : list hop),
+  tag_inj T tag (policies_all g1 g2 h) ->
+  (forall e, In e (envs_all g1 g2 h) -> key_safe e = true) ->
+  forall pre w req post hit d,
+  h = pre ++ HEval w req :: post ->
+  nth_error (snd (run_cached unit (relh_pure rel) T tag canon builtin_both M copying h (init unit T M g1 g2 tt)))
+            (evals_in pre) = Some (hit, GDecision d) ->
+  has_key "policies" (policy_at w pre g1 g2) = true ->
+  exists env k r kvs al,
+    build_env (guard_strict w g1 g2) req None = Some env /\ get_key "context" env = VObj k /\
+    policy_at w pre g1 g2 = VObj kvs /\ d = finish builtin_oblig r (VObj k) /\
+    set_algo (VObj kvs) = Some al /\
+    ((exists children cpre cpost crs,
+        assoc "policies" kvs = Some (VList children) /\ children = cpre ++ cpost /\
+        child_results rel cpre env crs /\ r = set_spec al crs)
+     \/ ((forall children, assoc "policies" kvs <> Some (VList children)) /\ r = set_no_match None)).
+Proof. exact set_combination_cached. Qed.
+Print Assumptions c02_set_combination_cached.
+
+(* single policies through the cache (tree_ok: the history's policies name a known algorithm or none) *)
+Theorem c02_single_combination_cached :
+  forall (rel : rel_query -> bool) (T : Type) (tag : value -> T) (teqb : T -> T -> bool),
+  (forall a b, teqb a b = true <-> a = b) ->
+  forall (M : cache_impl T), contract T teqb M ->
+  forall (copying : bool) (g1 g2 : gcfg) (h : list hop),
+  tag_inj T tag (policies_all g1 g2 h) ->
+  (forall e, In e (envs_all g1 g2 h) -> key_safe e = true) ->
+  (forall p, In p (policies_all g1 g2 h) -> tree_ok p) ->
+  forall pre w req post hit d,
+  h = pre ++ HEval w req :: post ->
+  nth_error (snd (run_cached unit (relh_pure rel) T tag canon builtin_both M copying h (init unit T M g1 g2 tt)))
+            (evals_in pre) = Some (hit, GDecision d) ->
+  has_key "policies" (policy_at w pre g1 g2) = false ->
+  exists env k r,
+    build_env (guard_strict w g1 g2) req None = Some env /\ get_key "context" env = VObj k /\
+    d = finish builtin_oblig r (VObj k) /\
+    ((policy_rules (policy_at w pre g1 g2) = None /\ r = no_match_raw) \/
+     exists al rules seen rpre rpost evs,
+       policy_rules (policy_at w pre g1 g2) = Some rules /\ incl seen rules /\ seen = rpre ++ rpost /\
+       events_of rel rpre env evs /\ raw_of_result (spec_result al evs) = Some r /\ al <> OtherAlgo /\
+       (policy_algo None (policy_at w pre g1 g2) = Some al \/
+        exists s, compiled_algo (policy_at w pre g1 g2) = Some s /\ algo_of_string s = al)).
+Proof. exact single_combination_cached. Qed.
+Print Assumptions c02_single_combination_cached.
+
+(* non-vacuity (theories/CacheExplain2.v, DefaultInMemoryCache(4)): guard holding the first-applicable
+   set pol_set of two policies; the same request twice: miss, then HIT, both permit by rule n1 *)
+Example c02_cached_example_answers :
+  map summary zouts = [(false, Some (true, Some "n1", "matched")); (true, Some (true, Some "n1", "matched"))].
+Proof. exact z_answers. Qed.
+Example c02_cached_example_hypotheses :
+  tag_inj value canon (policies_all zg zg zh) /\
+  (forall e, In e (envs_all zg zg zh) -> key_safe e = true) /\
+  child_results (fun _ => false) [pol_num; pol_mfa] zenv zcrs.
+Proof. exact z_hypotheses_hold. Qed.
+(* c02_set_is_spec_cached applied to the HIT: what is served is the gate applied to the set result *)
+Example c02_cached_example_hit_is_spec :
+  (forall o, nth_error zouts 1 = Some (true, o) ->
+     o = GDecision (finish builtin_oblig (set_spec FirstApplicable zcrs) (VObj []))) /\
+  r_decision (set_spec FirstApplicable zcrs) = "permit" /\ r_rule_id (set_spec FirstApplicable zcrs) = Some "n1".
+Proof. exact (conj z_hit_is_spec z_set_result). Qed.
